@@ -353,6 +353,15 @@ func ruleC07NoStateDependentRejection(c *Ctx) {
 				c.ok(rule, f, fmt.Sprintf("error return#%d", i+1), ret.Pos(), false, "function reads nothing from the index store")
 				continue
 			}
+			// passing on the error of a call that failed (`return err`) is not a rejection decided here: the rule is
+			// about errors this code originates - sentinels, errors.New/fmt.Errorf
+			last := ast.Unparen(ret.Results[len(ret.Results)-1])
+			if id, ok := last.(*ast.Ident); ok {
+				if v, ok := info.Uses[id].(*types.Var); ok && v.Pkg() != nil && v.Parent() != v.Pkg().Scope() {
+					c.ok(rule, f, fmt.Sprintf("error return#%d", i+1), ret.Pos(), false, "propagates the error of a failed call")
+					continue
+				}
+			}
 			var witness string
 			dep, reach := fl.guardedBy(ret, func(ft Fact) bool {
 				for o := range tainted {
